@@ -330,6 +330,47 @@ def unitymix_projects(thorough):
     return out
 
 
+def pchmix_projects():
+    """Precompiled headers of a target written in two languages: c_pch and / or cpp_pch (each language has its own header and its
+    own precompile step), target kinds, source orders, with and without a generated header inside the precompiled one.  Each
+    source really needs what its language's precompiled header declares, and the headers lie in a directory that is on no
+    include path: only the precompiled form can satisfy `-include`."""
+    out = []
+    for which in ('c', 'cpp', 'both'):
+        for kind in ('executable', 'static_library', 'shared_library'):
+            for order in ('c-first', 'cpp-first'):
+                for gen in (False, True):
+                    files = {'main.c': 'int cpart(void) { return C_FROM_PCH; }\n%s' % ('int main(void) { return cpart() - 1; }\n' if kind == 'executable' else ''),
+                             'util.cpp': 'int cpppart() { return CPP_FROM_PCH; }\n',
+                             'pch/mix_pch.h': '%s#define C_FROM_PCH 1\n' % ('#include "genh.h"\n' if gen else ''),
+                             'pch/mix_pch.hpp': '%s#define CPP_FROM_PCH 2\n' % ('#include "genh.h"\n' if gen else '')}
+                    L = ["project('pm', 'c', 'cpp', default_options: ['warning_level=0'])", "cp = find_program('cp')"]
+                    srcs = ["'main.c'", "'util.cpp'"] if order == 'c-first' else ["'util.cpp'", "'main.c'"]
+                    if gen:
+                        files['genh.h.in'] = '#define GENH 1\n'
+                        L.append("genh = custom_target('genh', input: 'genh.h.in', output: 'genh.h', command: [cp, '@INPUT@', '@OUTPUT@'])")
+                        srcs.append('genh')
+                    kws = []
+                    cargs, cppargs = [], []
+                    if which in ('c', 'both'):
+                        kws.append("c_pch: 'pch/mix_pch.h'")
+                    else:
+                        cargs.append("'-DC_FROM_PCH=1'")
+                    if which in ('cpp', 'both'):
+                        kws.append("cpp_pch: 'pch/mix_pch.hpp'")
+                    else:
+                        cppargs.append("'-DCPP_FROM_PCH=2'")
+                    if cargs:
+                        kws.append('c_args: [%s]' % ', '.join(cargs))
+                    if cppargs:
+                        kws.append('cpp_args: [%s]' % ', '.join(cppargs))
+                    L.append("%s('mix', %s, %s)" % (kind, ', '.join(srcs), ', '.join(kws)))
+                    files['meson.build'] = '\n'.join(L) + '\n'
+                    desc = 'pchmix: %s of a C and a C++ source (%s), precompiled header for %s%s' % (kind, order, which, ', including a generated header' if gen else '')
+                    out.append(({'desc': desc, 'files': files, 'family': 'pchmix'}, ()))
+    return out
+
+
 def preprocess_projects():
     """compiler.preprocess(depends:): the preprocessed source includes a build-time generated file of any name (a header, an .inc
     table, a .def list), produced by a single- or multi-output custom target that another target needs as well."""
@@ -513,6 +554,10 @@ def jobs_for(ck):
                 idx += 1
     # compiler.preprocess(depends:) over generated files of any name
     for spec, args in preprocess_projects():
+        jobs.append((idx, spec, 'root', False, args))
+        idx += 1
+    # precompiled headers of a target written in two languages
+    for spec, args in pchmix_projects():
         jobs.append((idx, spec, 'root', False, args))
         idx += 1
     # unity builds of targets that mix plain and generated sources of one or two languages
